@@ -1,6 +1,6 @@
 (* C18 — handshake: greeting accepted iff valid (this file: the greeting; the password exchange is
    stated over the loop model in LoopProofs).  Statements only. *)
-From MPD Require Import Bytes Tables ParserModel BuilderModel ConnModel ParserProofs ConnProofs GrammarProofs.
+From MPD Require Import Bytes Tables ParserModel BuilderModel ConnModel ParserProofs ConnProofs GrammarProofs CommandModel LoopModel.
 Open Scope N_scope.
 
 (* total classification of the first line by the byte string alone *)
@@ -41,9 +41,62 @@ Example c18_ex :
     Connected (b "1") (mkConn (Blocking 24) (b "OK" ++ [LF]) Initial).
 Proof. repeat split; vm_compute; reflexivity. Qed.
 
+(* ---- the password half: do_connect as the sequential program it is (LoopModel) ---- *)
+
+(* with a password, the only thing written after the greeting is the password command, and the
+   run loop (whose first act is to write idle) is NOT started yet *)
+Theorem c18_password_first : forall pw v line,
+  password_line pw = Some line ->
+  after_greeting false (Some pw) v = (HPassword v, [OWrite line], None, false).
+Proof. intros pw v line H. unfold after_greeting. rewrite H. reflexivity. Qed.
+
+(* the password command line is "password" + the escaped argument (byte-level fidelity: C06) *)
+Theorem c18_password_line : forall pw,
+  validate_argument (escape_argument pw) = None ->
+  password_line pw = Some (b "password" ++ [SP] ++ escape_argument pw ++ [LF]).
+Proof.
+  intros pw H. unfold password_line, add_str, add_argument_raw. rewrite H. unfold send_bytes.
+  rewrite <- !app_assoc. reflexivity.
+Qed.
+
+(* without a password the loop starts at once and its first write is idle *)
+Theorem c18_no_password : forall v,
+  after_greeting false None v = (HDone, [], Some (ConnOk v), true) /\ loop_entry false = (PIdle, [OWrite idle_line]).
+Proof. intros; split; reflexivity. Qed.
+
+(* the verdict on the password: ANY error response is the incorrect-password error and nothing
+   further happens (the loop is not started, so nothing more is written); a close, cut, garbage or
+   I/O error is the protocol error; only a success response starts the loop *)
+Theorem c18_password_verdict : forall v r,
+  after_password v r =
+  match r with
+  | RResp x => match r_error x with
+               | Some _ => (Some ConnBadPassword, false)
+               | None => (Some (ConnOk v), true)
+               end
+  | RClean => (Some (ConnErr EUeof), false)
+  | RErr e => (Some (ConnErr e), false)
+  end.
+Proof. intros v [x | | e]; cbn; [destruct (r_error x)|..]; reflexivity. Qed.
+
+(* if the password cannot even be written, the error is returned and the loop is not started *)
+Theorem c18_password_write_fails : forall pw v line,
+  password_line pw = Some line ->
+  after_greeting true (Some pw) v = (HDone, [], Some (ConnErr EIo), false).
+Proof. intros pw v line H. unfold after_greeting. rewrite H. reflexivity. Qed.
+
+Example c18_pw_ex :
+  password_line (b "pass word") = Some (b "password ""pass word""" ++ [LF]) /\
+  password_line (b "a" ++ [LF]) = None.
+Proof. split; vm_compute; reflexivity. Qed.
+
 Print Assumptions c18_valid.
 Print Assumptions c18_bad_version.
 Print Assumptions c18_wrong_prefix.
 Print Assumptions c18_incomplete_prefix.
 Print Assumptions c18_incomplete_version.
 Print Assumptions c18_connect_is_reference.
+Print Assumptions c18_password_first.
+Print Assumptions c18_password_line.
+Print Assumptions c18_no_password.
+Print Assumptions c18_password_verdict.
